@@ -5,6 +5,7 @@ CONSTANTS
   MaxOps = 3
   Depth = 3
   Universe = "adv"
+  Deep = FALSE
   Snaps = TRUE
   BType = "hash"
   BRawId = ""
